@@ -20,7 +20,9 @@ RULE = ("energies 10^U(3,12) GeV x (EM only / hadronic only / mixed fractions) x
         "offsets 0 / -37 ns / 1 us / random) x shower times t0 = times[0]+(k+frac)dt with frac in [0.1,0.9] (for ARZ "
         "also the fractional part of the sub-sample index kept in [0.1,0.9]), k inside, before and far outside the "
         "window; plus, for the search, ARZ pulses 5e-4..0.13 rad off the cone compared with an independent quadrature "
-        "of the convolution integral; a case is non-trivial when the energy is non-zero and the pulse is not cut to all-zero; distinct = "
+        "of the convolution integral, and weak showers (hadronic energy 3e-3 GeV..1.6 TeV, EM part absent / dominant / "
+        "weak) exactly on the cone (+-arccos(1/n) bitwise), near and off it for all three models (finite, right "
+        "length); a case is non-trivial when the energy is non-zero and the pulse is not cut to all-zero; distinct = "
         "distinct (model, parameters, grid) tuples")
 LEVEL_TEXT = ("theorems C07_* proved over R for the model text (1/R exactly, evenness in the angle, joint shift, "
               "whole-sample moves (ARZ up to the signal class, sum over showers), zero energy, non-vanishing "
@@ -862,6 +864,27 @@ def search(run, deep):
         res = rel_check(run, "arz", c, "position")
         if res is not None:
             report(run, "arz", c, "position", res)
+    # weak showers, all three models: hadronic shower energies 3e-3 GeV .. 1.6 TeV (below the 1 TeV threshold of
+    # the AVZ hadronic width, below 1 GeV, around the ARZ critical energies and the K12 band), alone or with an EM
+    # shower that may itself be weak, seen exactly on the cone (viewing angle bitwise +-arccos(1/n)), near it and
+    # off it: the field must be finite and of the right length.  K12 is recognised for ARZ only.
+    for i in range(run.scale(50, 400) if not deep else 400):
+        c = gen_case(run, "zhs", small=True, inside=True)
+        c["psi"] = None
+        am = r.choice(["cone", "cone", "near", "off"])
+        c["angle_mode"] = am
+        c["dpsi"] = {"cone": 0.0, "near": r.choice([-1, 1]) * 10 ** r.uniform(-4, -1.3),
+                     "off": r.choice([-1, 1]) * r.uniform(0.05, 0.35)}[am]
+        c["E"] = 10 ** r.uniform(3, 6)
+        c["had"] = 10 ** r.uniform(-2.5, 3.2) / c["E"]
+        c["em"] = {"had": 0.0, "mix": 1 - c["had"], "weak_em": 10 ** r.uniform(-2.5, 3) / c["E"]}[
+            r.choice(["had", "mix", "weak_em"])]
+        run.case(("weak",) + desc("zhs", c))
+        run.count("search_weak_%s" % am)
+        for kind in KINDS:
+            res = rel_check(run, kind, c, "finite")
+            if res is not None:
+                report(run, kind, c, "finite", res)
     # tiny hadronic fractions (ARZ): finiteness
     for i in range(run.scale(6, 60)):
         c = gen_case(run, "arz", small=True, inside=True)
